@@ -35,6 +35,8 @@ func checkC02(w *World, r *Report) {
 	ruleSmuxBuffers(w, r, "R02.7")
 	r.Rule("R02.6", "every serving goroutine works on the stream accepted for it (no shared re-assigned variable)", 1)
 
+	r.Rule("R02.8", "per-connection goroutines keep their state in locals: no store into the object all of them share", 2)
+	ruleHandlersKeepStateLocal(w, r, "R02.8")
 	ruleAcceptLoopNotOccupied(w, r, "R02.1", map[string]bool{"stream": true}, nil)
 	ruleAcceptLoopNotOccupied(w, r, "R02.1", map[string]bool{"listener": true}, func(al acceptLoop) bool {
 		return al.Fn.Pkg != nil && al.Fn.Pkg.Pkg.Path() == modPath+"/internal/client/listener"
